@@ -12,8 +12,10 @@
 (* The function arguments are closed EXPRESSIONS of the FnEval language    *)
 (* (catalog Fn); the binding renders them 1:1.  States holding anything    *)
 (* but integers (string / double results) are terminal.                    *)
-(* Not modelled: collations (keys are single numbers), keys that are       *)
-(* sequences, function items as sequence members.                          *)
+(* Sibling machines for fn:sort: SpecMixed, SpecColl, SpecTies and         *)
+(* SpecSpecial (numbers of different types with -INF, INF, NaN).           *)
+(* Not modelled: keys that are sequences, function items as sequence       *)
+(* members.                                                                *)
 (***************************************************************************)
 EXTENDS FnEval
 
@@ -88,6 +90,10 @@ Fn(name) ==
     (* keys for the collation machine *)
     [] name = "ident" -> Fun("C1", <<"x">>, X)
     [] name = "string1" -> Ref("string", 1)
+    (* keys that send finite items to a SPECIAL xs:double: -INF for integers, INF for integers and decimals, NaN *)
+    [] name = "ninfint" -> Fun("N1", <<"x">>, If(InstOf(X, "xs:integer"), InfLit(-1), X))
+    [] name = "pinfdec" -> Fun("N2", <<"x">>, If(InstOf(X, "xs:decimal"), InfLit(1), X))
+    [] name = "nanint" -> Fun("N3", <<"x">>, If(InstOf(X, "xs:integer"), NaNLit, X))
     (* other arities, for fn:apply *)
     [] name = "k7" -> Fun("A0", <<>>, Lit(7))
     [] name = "f3" -> Fun("A3", <<"a", "b", "c">>, Op("+", Op("*", Op("+", Op("*", A, Lit(10)), Bv), Lit(10)), Var("c")))
@@ -112,7 +118,8 @@ AllNames == Unary \cup Preds \cup Binary \cup PairOnly \cup Keys \cup {"k7", "f3
 Names == {"dbl", "addk", "dup", "drop", "abs", "nestfold", "nesteach", "p7", "powp", "odd", "ltk", "any", "ltp",
           "sub", "shift", "snoc", "cons", "subk", "pow", "concat2", "negate", "mod2", "const", "modk",
           "k7", "f3", "concat3", "str", "isint", "isbool", "tag", "ident", "string1",
-          "arr3", "map3", "mapb", "headabs", "letpred", "number1", "nankey", "zerokey", "emptykey", "xtype"}
+          "arr3", "map3", "mapb", "headabs", "letpred", "number1", "nankey", "zerokey", "emptykey", "xtype",
+          "ninfint", "pinfdec", "nanint"}
 FV == [name \in Names |-> Eval(Fn(name), EmptyEnv)[1]]
 FnVal(name) == FV[name]
 Ints(ns) == [j \in 1..Len(ns) |-> I(ns[j])]
@@ -306,6 +313,45 @@ LawsTies ==
   /\ Ap1("number1", S("x")) = <<[nan |-> TRUE]>> /\ Ap1("number1", S("10")) = <<D(10)>>
   /\ KeyVal(Ap1("number1", S("y"))) = KeyVal(Ap1("number1", S("x")))          \* NaN keys are equal
   /\ KeyVal(Ap1("number1", S("x"))) < KeyVal(Ap1("number1", S("9")))          \* and sort first
+---------------------------------------------------------------------------
+(* FIFTH MACHINE (SpecSpecial): fn:sort / array:sort over numbers of DIFFERENT types together with the special *)
+(* values of xs:double and xs:float.  F&O 3.1 16.2.6 fn:sort: the order is deep-less-than on the sort keys:   *)
+(*   "if ($A[1] ne $A[1] and $B[1] eq $B[1]) (: NaN is less than everything :) then fn:true() ...              *)
+(*    else $A[1] lt $B[1]",  and keys that are deep-equal keep their input order;                              *)
+(* op:numeric-less-than after promotion (XPath 3.1 B.1: integer -> decimal -> float -> double):                *)
+(*   NaN  <  -INF  <  every finite integer / decimal / float / double  <  INF,                                 *)
+(*   xs:float -INF = xs:double -INF, xs:float NaN = xs:double NaN (equal keys: stable),  7 = 7e0.             *)
+(* Keys: none (sort#1), the identity, and three keys that send the integers (/ decimals) to -INF, INF, NaN.    *)
+SpecialItems == {I(-5), I(7), C(2), D(3), F(4), Inf(-1), Inf(1), NaN, FInf(-1)}
+                  \cup (IF UniverseName = "u6" THEN {D(7), FNaN} ELSE {})
+SpecialKeys == {"none", "ident", "ninfint", "pinfdec"} \cup (IF UniverseName = "u6" THEN {"nanint"} ELSE {})
+KeyFn(key) == IF key = "none" THEN NoKey ELSE FnVal(key)
+InitSpecial == acc \in UNION {[1..k -> SpecialItems] : k \in 0..MaxLen}
+SortSpecialA(key) == /\ Deeper /\ key \in SpecialKeys
+                     /\ acc' = SortBy(acc, KeyFn(key))
+NextSpecial == \E key \in Names \cup {"none"} : SortSpecialA(key)
+SpecSpecial == InitSpecial /\ [][NextSpecial]_vars
+Finite(x) == Has(x, "i") \/ Has(x, "c") \/ Has(x, "d") \/ Has(x, "f")
+LawsSpecial ==
+  /\ Len(acc) <= 4 => \A key \in SpecialKeys :
+       LET ps == {p \in Permutations(1..Len(acc)) : IsSortPerm(p, key)}
+           r == SortBy(acc, KeyFn(key)) IN
+       /\ Cardinality(ps) = 1                                   \* THE stable ordered permutation
+       /\ \A p \in ps : r = [i \in 1..Len(acc) |-> acc[p[i]]]
+       /\ \A i \in 1..(Len(r) - 1) : KeyNum(r[i], key) <= KeyNum(r[i + 1], key)
+       /\ SortBy(r, KeyFn(key)) = r                             \* idempotent
+  (* the rank order the F&O rule gives *)
+  /\ \A x \in SpecialItems : Finite(x) =>
+        /\ KeyVal(<<NaN>>) < KeyVal(<<Inf(-1)>>) /\ KeyVal(<<Inf(-1)>>) < KeyVal(<<x>>) /\ KeyVal(<<x>>) < KeyVal(<<Inf(1)>>)
+        /\ KeyVal(<<x>>) = NumOf(x)
+  /\ KeyVal(<<FInf(-1)>>) = KeyVal(<<Inf(-1)>>) /\ KeyVal(<<FNaN>>) = KeyVal(<<NaN>>) /\ KeyVal(<<FInf(1)>>) = KeyVal(<<Inf(1)>>)
+  (* the keys do what their names say *)
+  /\ Ap1("ninfint", I(7)) = <<Inf(-1)>> /\ Ap1("ninfint", C(2)) = <<C(2)>> /\ Ap1("ninfint", Inf(1)) = <<Inf(1)>>
+  /\ Ap1("pinfdec", I(7)) = <<Inf(1)>> /\ Ap1("pinfdec", C(2)) = <<Inf(1)>> /\ Ap1("pinfdec", D(3)) = <<D(3)>>
+  /\ Ap1("nanint", I(7)) = <<NaN>> /\ Ap1("nanint", F(4)) = <<F(4)>>
+(* printed for the binding: the sort key of every item under every key function (failure classification only) *)
+SpecialKeyTable == {<<key, x, KeyOf(x, KeyFn(key))>> : key \in SpecialKeys, x \in SpecialItems}
+
 (* a higher-order function called AS A FUNCTION ITEM (name#n, also through fn:apply) is the function *)
 LawHofItems ==
   Short => \A f \in Binary \cup FoldNamed, z \in Zeros : OkZero(z, f) =>
@@ -334,4 +380,5 @@ Catalog == [name \in Names |-> [e |-> Fn(name), collision |-> Collides(name), ne
                                 arity |-> Arity(FV[name]), v31 |-> V31(name)]]
 ASSUME PrintT(<<"catalog", Catalog>>)
 ASSUME PrintT(<<"zeros", [z \in Zeros |-> ZeroExpr(z)]>>)
+ASSUME PrintT(<<"speckeys", SpecialKeyTable>>)
 =============================================================================
